@@ -34,7 +34,7 @@ RULE = ("one run = one version-2 certificate file, one root certificate and one 
         "enclave (QE auth data 0..1000 bytes, PEM chains of 2..3 certificates, P-256 / P-384 platform "
         "CA), with one enclave answer altered on the link, altered at rest (any byte of message / "
         "signature / key / auth data / custom data / X.509 DER, re-parenting, re-signing by another key), "
-        "wrong root, dishonest issuer; clock: inside all windows, 1 s before / exactly at / 1 s after "
+        "wrong root, dishonest issuer; host time zone UTC / -8 / -5 / +5:30 / +9 / +13 h; clock: inside all windows, 1 s before / exactly at / 1 s after "
         "each notBefore and notAfter, far past, far future, non-overlapping windows; elements named like the "
         "root of trust (stray copy / the certificate's own root under another verifier root); the same "
         "certificate object asked again 0..2 times under other roots and at other instants; non-trivial = a "
@@ -160,6 +160,9 @@ def run_one(ch, cfg):
     cls = ch.weighted([(2, "genuine"), (2, "link"), (4, "at-rest"), (1, "wrong-root"),
                        (3, "dishonest")], "artefact-class")
     clock_cls = ch.weighted([(4, "inside")] + [(1, c) for c in CLOCKS[1:]], "clock")
+    # the host's local time zone (seconds east of UTC): validity periods are instants, not wall-clock
+    # readings, so it must not matter
+    tz_offset = ch.pick([0, 0, -5 * 3600, 9 * 3600, 13 * 3600, -8 * 3600, 19800], "host-time-zone")
     kind = cls
     elem_name = None
     viol = []
@@ -276,6 +279,7 @@ def run_one(ch, cfg):
     w.activate()
     w.sim_elapsed = w.clock.elapsed
     w.clock.now = when
+    w.tz_offset = tz_offset
     # ---- the real code
     real = None
     real_err = None
